@@ -83,6 +83,8 @@ fn item_key(i: &Result<proguard::ProguardRecord<'_>, proguard::ParseError<'_>>) 
 /// "Iterating its records" is any use of the iterator: `nth`, `skip`, `step_by`, `count`, `last`, a clone taken
 /// mid-way, and the iterator of a `section()` must all agree with what plain `next()` yields.
 pub fn check_iter_api(bytes: &[u8], st: &mut Stats) -> Check {
+    // bounded pass first: an iterator that does not terminate must be reported, not collected
+    records(bytes)?;
     st.evaluations += 1;
     let r = guarded(|| -> Check {
         let m = proguard::ProguardMapping::new(bytes);
@@ -133,6 +135,7 @@ pub fn check_section(bytes: &[u8], key: u64, st: &mut Stats) -> Check {
     if bytes.is_empty() {
         return Ok(());
     }
+    records(bytes)?;
     st.evaluations += 1;
     let r = guarded(|| -> Check {
         let parent = proguard::ProguardMapping::new(bytes);
@@ -398,9 +401,72 @@ pub fn check_corpus(c: &CorpusSplit, st: &mut Stats) -> Check {
     check_bytes(&mutate::to_crlf(&bytes), c.splits / 2 + 1, st)
 }
 
+/// Inputs beyond 2^31 and 2^32 bytes: a handful of short records separated by comment lines of `gap` bytes each.
+/// Oracle: resynchronisation — exactly the short records, in order, each once, between exactly `gaps` long header
+/// items whose key has the full length; bounded iteration.
+#[derive(Clone, Debug, serde::Serialize, serde::Deserialize)]
+pub struct HugeInput {
+    pub gap: usize,
+    pub gaps: usize,
+    pub crlf: bool,
+}
+
+pub fn check_huge_input(c: &HugeInput, st: &mut Stats) -> Check {
+    let eol: &[u8] = if c.crlf { b"\r\n" } else { b"\n" };
+    let short: Vec<String> = (0..=c.gaps).map(|i| format!("com.example.K{i} -> k{i}:")).collect();
+    let mut input: Vec<u8> = Vec::with_capacity(c.gaps * (c.gap + 4) + 64 * (c.gaps + 1));
+    for (i, s) in short.iter().enumerate() {
+        input.extend_from_slice(s.as_bytes());
+        input.extend_from_slice(eol);
+        if i < c.gaps {
+            input.push(b'#');
+            input.resize(input.len() + c.gap - 1, b'x');
+            input.extend_from_slice(eol);
+        }
+    }
+    st.class(&format!("input of {} GiB", input.len() >> 30));
+    st.nontrivial(fnv64(&[c.gaps as u8, (c.gap >> 24) as u8, c.crlf as u8]));
+    let total = input.len();
+    let r = guarded(|| -> Check {
+        let mut classes = Vec::new();
+        let mut longs = 0usize;
+        let mut items = 0usize;
+        for item in proguard::ProguardMapping::new(&input).iter() {
+            items += 1;
+            if items > 4 * (c.gaps + 2) {
+                return Err(Fail::new("more-items-than-bytes", format!("input of {total} bytes with {} lines: the iterator has yielded {items} items and goes on (classes so far: {classes:?})", 2 * c.gaps + 1)));
+            }
+            match item {
+                Ok(proguard::ProguardRecord::Class { original, obfuscated }) => classes.push(format!("{original} -> {obfuscated}:")),
+                Ok(proguard::ProguardRecord::Header { key, value }) => {
+                    if key.len() != c.gap - 1 || value.is_some() {
+                        return Err(Fail::new("huge-input", format!("comment line of {} bytes came back as a header with a key of {} bytes (value present: {})", c.gap, key.len(), value.is_some())));
+                    }
+                    longs += 1;
+                }
+                Ok(other) => return Err(Fail::new("huge-input", format!("unexpected record {}", crate::engine::truncate(&format!("{other:?}"), 200)))),
+                Err(e) => {
+                    if !e.line().iter().all(|b| *b == b'\r' || *b == b'\n') {
+                        return Err(Fail::new("huge-input", format!("unexpected error item with a line of {} bytes", e.line().len())));
+                    }
+                }
+            }
+        }
+        if classes != short || longs != c.gaps {
+            return Err(Fail::new("resync", format!("input of {total} bytes: expected the class records {short:?} around {} long comment lines, the iterator yielded {classes:?} around {longs}", c.gaps)));
+        }
+        Ok(())
+    });
+    st.evaluations += 1;
+    match r {
+        Ok(x) => x,
+        Err(p) => Err(Fail::new("parse-panic", format!("iterating an input of {total} bytes panicked: {p}"))),
+    }
+}
+
 pub fn run(ctx: &Ctx) -> Report {
     let mut rep = Report::new(ID, "exploration", ctx);
-    rep.rule = "Generated: pairs (A,B) of token soups over the grammar's delimiters (4 spaces, ':', ' -> ', parentheses, '#', LF, CR, CRLF, the sourceFile JSON prefix/suffix, quotes, 0xff, 0xb2, huge digit runs, whole valid lines) joined by LF, CR and CRLF; random byte strings and delimiter-byte strings split at every line break; hostile token mutants of generated mappings (numbers around 2^32/2^64, invalid UTF-8, unterminated sourceFile headers); corpus files cut at sampled line boundaries; bounded-exhaustive: all strings of <=6 (quick) / <=7 (thorough) symbols over an 11-symbol alphabet (a, space, arrow, colon, #, LF, CR, sourceFile prefix, quote-brace, backslash, VT), split at every LF/CR symbol. Oracle: iteration terminates with items <= input bytes; every way of iterating (nth, skip, step_by, count, last, a clone taken mid-way, the iterator of a section() taken after the parent was used) yields what plain next() yields; no yielded component contains CR/LF, and records(A ++ t ++ B) == records(A) ++ records(B) after norm (error items compared by their line without terminators; error items with an empty line dropped). evaluations = inputs iterated + split relations checked. Non-trivial = distinct (input, split) whose records contain both an Ok and an Err item, or whose A ends in an error line.".into();
+    rep.rule = "Generated: pairs (A,B) of token soups over the grammar's delimiters (4 spaces, ':', ' -> ', parentheses, '#', LF, CR, CRLF, the sourceFile JSON prefix/suffix, quotes, 0xff, 0xb2, huge digit runs, whole valid lines) joined by LF, CR and CRLF; random byte strings and delimiter-byte strings split at every line break; hostile token mutants of generated mappings (numbers around 2^32/2^64, invalid UTF-8, unterminated sourceFile headers); corpus files cut at sampled line boundaries; bounded-exhaustive: all strings of <=6 (quick) / <=7 (thorough) symbols over an 11-symbol alphabet (a, space, arrow, colon, #, LF, CR, sourceFile prefix, quote-brace, backslash, VT), split at every LF/CR symbol. plus inputs of 2^31+ and 2^32+ bytes (short records between comment lines of 2 GiB). Oracle: iteration terminates with items <= input bytes; every way of iterating (nth, skip, step_by, count, last, a clone taken mid-way, the iterator of a section() taken after the parent was used) yields what plain next() yields; no yielded component contains CR/LF, and records(A ++ t ++ B) == records(A) ++ records(B) after norm (error items compared by their line without terminators; error items with an empty line dropped). evaluations = inputs iterated + split relations checked. Non-trivial = distinct (input, split) whose records contain both an Ok and an Err item, or whose A ends in an error line.".into();
     rep.assumptions = vec!["phantom error items for blank trailing input are ignored (norm)".into()];
     rep.run_stage("pairs", pair_case, ctx.cases(150_000, 12_000_000), check_pair);
     rep.run_stage("bytes", bytes_case, ctx.cases(20_000, 1_500_000), |c: &BytesCase, st: &mut Stats| check_bytes(&unhex(&c.hex), 32, st));
@@ -419,6 +485,16 @@ pub fn run(ctx: &Ctx) -> Report {
     let splits = ctx.tier.pick(24, 400);
     let corpus: Vec<CorpusSplit> = super::c02::corpus_files().into_iter().map(|p| CorpusSplit { path: p, splits }).collect();
     rep.run_enum("corpus", &corpus, check_corpus);
+    // inputs longer than 2^31 and 2^32 bytes (one at a time: 2.1 and 4.3 GB of memory)
+    let huge = ctx.tier.pick(
+        &[HugeInput { gap: (1usize << 31) + 16, gaps: 1, crlf: false }, HugeInput { gap: (1usize << 31) + 16, gaps: 2, crlf: true }][..],
+        &[HugeInput { gap: (1usize << 31) + 16, gaps: 1, crlf: false }, HugeInput { gap: (1usize << 31) + 16, gaps: 2, crlf: true }, HugeInput { gap: (1usize << 32) + 5, gaps: 1, crlf: false }, HugeInput { gap: (1usize << 30) + 1, gaps: 9, crlf: false }][..],
+    );
+    let ctx1 = Ctx { threads: 1, ..ctx.clone() };
+    let mut rep1 = Report::new(ID, "exploration", &ctx1);
+    rep1.run_enum("huge-input", huge, check_huge_input);
+    rep.stats.merge(std::mem::take(&mut rep1.stats));
+    rep.violations.append(&mut rep1.violations);
     rep
 }
 
@@ -434,6 +510,7 @@ pub fn replay(stage: &str, case: &Value) -> Check {
         "mutants" => check_mutant(&serde_json::from_value(case.clone()).map_err(de)?, &mut st),
         "exhaustive" => check_chunk(&Chunk { len: case["len"].as_u64().unwrap_or(1) as usize, first: case["first"].as_u64().unwrap_or(0) as usize }, &mut st),
         "corpus" => check_corpus(&serde_json::from_value(case.clone()).map_err(de)?, &mut st),
+        "huge-input" => check_huge_input(&serde_json::from_value(case.clone()).map_err(de)?, &mut st),
         "split" => check_split(&unhex(case["a_hex"].as_str().unwrap_or("")), &unhex(case["t_hex"].as_str().unwrap_or("")), &unhex(case["b_hex"].as_str().unwrap_or("")), &mut st),
         _ => Err(Fail::new("harness-replay", format!("unknown stage {stage}"))),
     }
